@@ -521,18 +521,25 @@ func (s *sharedEntryAttributes) getRegularDeletes(deletes []DeleteEntry, aggrega
 			// so if we have an old and a new best cases (not "") and the names are different,
 			// all the old to the deletion list
 			if oldBestCaseName != "" && newBestCaseName != "" && oldBestCaseName != newBestCaseName {
-				// try fetching the case from the childs
-				oldBestCaseEntry, exists := s.childs.GetEntry(oldBestCaseName)
-				if exists {
-					deletes = append(deletes, oldBestCaseEntry)
-				} else {
+				// a case consists of one or more elements, which are the childs that need to be deleted
+				for _, elemName := range v.getCaseElementNames(oldBestCaseName) {
+					// try fetching the element from the childs
+					oldBestCaseEntry, exists := s.childs.GetEntry(elemName)
+					if exists {
+						deletes = append(deletes, oldBestCaseEntry)
+						continue
+					}
 					// it might be that the child is not loaded into the tree, but just considered from the treecontext cache for the choice/case resolution
-					// if so, we create and return the DeleteEntryImpl struct
+					// if so, we create and return the DeleteEntryImpl struct for the elements that are populated
+					if !v.isCaseElementPopulated(oldBestCaseName, elemName) {
+						continue
+					}
 					path, err := s.SdcpbPath()
 					if err != nil {
 						return nil, err
 					}
-					deletes = append(deletes, NewDeleteEntryImpl(path, append(s.Path(), oldBestCaseName)))
+					path.Elem = append(path.Elem, &sdcpb.PathElem{Name: elemName})
+					deletes = append(deletes, NewDeleteEntryImpl(path, append(s.Path(), elemName)))
 				}
 			}
 		}
